@@ -65,6 +65,18 @@ fn gen_value(rng: &mut Rng) -> MapSpec {
     2 => (0..ns + 1).map(|i| if i == 0 { String::new() } else { nasty_string(rng, 6) }).collect(),
     _ => (0..ns).map(|_| nasty_string(rng, 8)).collect(),
   };
+  let mut sources_content = sources_content;
+  if rng.chance(15) && !sources_content.is_empty() {
+    // big-document swarm mode: beyond 8 KiB / 64 KiB buffer and block sizes
+    let unit = nasty_string(rng, 6) + "line;\n";
+    let target = *rng.pick(&[8190usize, 8193, 65530, 65537, 140_000]);
+    let mut big = String::new();
+    while big.len() < target {
+      big.push_str(&unit);
+    }
+    let i = rng.usize_below(sources_content.len());
+    sources_content[i] = big;
+  }
   let nn = rng.usize_below(3);
   let opt = |rng: &mut Rng| if rng.chance(400) { Some(nasty_string(rng, 4)) } else { None };
   MapSpec {
@@ -248,6 +260,29 @@ fn independent_check(j: &str, e: &MapSpec) -> Option<String> {
   None
 }
 
+/// Offsets at which write errors / truncation / read errors are injected:
+/// every offset for small documents in `all_offsets` mode; otherwise the
+/// case's sampled offsets (taken modulo the length), the ends, and for large
+/// documents the offsets around 8 KiB and 64 KiB block boundaries.
+fn fault_offsets(case: &C15Case, len: u64) -> Vec<u64> {
+  if len == 0 {
+    return vec![];
+  }
+  if case.all_offsets && len <= 2000 {
+    return (0..len).collect();
+  }
+  let mut v: Vec<u64> = case.offsets.iter().map(|o| o % len).collect();
+  v.extend([0, 1, len - 1, len / 2]);
+  for b in [8192u64, 65536, 131072] {
+    if b + 1 < len {
+      v.extend([b - 1, b, b + 1]);
+    }
+  }
+  v.sort_unstable();
+  v.dedup();
+  v
+}
+
 pub fn check_case(case: &C15Case) -> (Vec<Violation>, Counters) {
   sched::set_quiet(true);
   let mut counters = Counters::default();
@@ -314,7 +349,7 @@ pub fn check_case(case: &C15Case) -> (Vec<Violation>, Counters) {
         Err(_) => bad("panic", "to_writer", format!("to_writer panicked: {}", sched::take_last_panic().unwrap_or_default())),
       }
       // hard write error at k
-      let ks: Vec<u64> = if case.all_offsets { (0..j.len() as u64).collect() } else { case.offsets.clone() };
+      let ks: Vec<u64> = fault_offsets(case, j.len() as u64);
       for k in ks.iter().copied().filter(|k| *k < j.len() as u64) {
         let mut w = SimWriter::new(
           WriterPlan {
@@ -383,7 +418,7 @@ pub fn check_case(case: &C15Case) -> (Vec<Violation>, Counters) {
   }
 
   // crash-truncation and hard read errors
-  let ks: Vec<u64> = if case.all_offsets { (0..j.len() as u64).collect() } else { case.offsets.clone() };
+  let ks: Vec<u64> = fault_offsets(case, j.len() as u64);
   for k in ks.iter().copied().filter(|k| *k < j.len() as u64) {
     for mode in 0..2 {
       let plan = if mode == 0 {
@@ -489,7 +524,7 @@ impl C15 {
       truncate_at: None,
     };
     let all_offsets = thorough || rng.chance(100);
-    let offsets = (0..6).map(|_| rng.below(400)).collect();
+    let offsets = (0..6).map(|_| rng.below(1 << 20)).collect();
     C15Case {
       kind: "json".into(),
       doc,
@@ -633,7 +668,7 @@ impl Property for C15Prop {
     (serde_json::to_value(&cur).unwrap(), from)
   }
   fn rule(&self) -> String {
-    "case = (document, writer plan, reader plan, fault offsets) from splitmix(VERIF_SEED, run index). 65% SourceMap values with strings over quotes, backslashes, C0 controls, DEL, U+2028/2029, BOM, 2-4-byte characters, optional fields present/absent, all-empty vs partly empty sourcesContent; 35% hand-serialised documents with nulls, missing arrays, shuffled and unknown keys, whitespace. Pipeline: to_json -> independent serde_json check; to_writer through a fragmenting/EINTR writer -> file F must equal to_json byte for byte; from_json, from_slice, from_reader(fragmenting reader) must give the same fields; hard write error at k -> Err and F is the k-byte prefix; crash-truncation at k and hard read error at k -> Err, never Ok, never panic (k sampled in quick, every k in 10% of runs and in thorough). distinct_nontrivial = distinct documents with at least one non-default field.".into()
+    "case = (document, writer plan, reader plan, fault offsets) from splitmix(VERIF_SEED, run index). 65% SourceMap values with strings over quotes, backslashes, C0 controls, DEL, U+2028/2029, BOM, 2-4-byte characters, optional fields present/absent, all-empty vs partly empty sourcesContent; 35% hand-serialised documents with nulls, missing arrays, shuffled and unknown keys, whitespace. Pipeline: to_json -> independent serde_json check; to_writer through a fragmenting/EINTR writer -> file F must equal to_json byte for byte; from_json, from_slice, from_reader(fragmenting reader) must give the same fields; hard write error at k -> Err and F is the k-byte prefix; crash-truncation at k and hard read error at k -> Err, never Ok, never panic (k sampled in quick, every k in 10% of runs and in thorough; 1.5% of the values carry an 8-140 KiB sourcesContent entry, for which the offsets around 8 KiB / 64 KiB / 128 KiB boundaries are added). distinct_nontrivial = distinct documents with at least one non-default field.".into()
   }
   fn assumptions(&self) -> Vec<String> {
     vec![
